@@ -5,7 +5,6 @@ import (
 	"sort"
 	"time"
 
-	"github.com/rulego/streamsql"
 )
 
 // WinCfg is the configuration part of a window-family scenario (times in ticks).
@@ -182,7 +181,7 @@ func runWin(sc WinScenario) (evs []Ev, inconclusive string) {
 		}
 		return nil
 	}
-	s := streamsql.New()
+	s := newInstance()
 	sql := WinSQL(sc.Cfg)
 	if err := s.Execute(sql); err != nil {
 		return nil, "execute: " + err.Error()
